@@ -339,7 +339,7 @@ def run(ctx):
                    "multiplication) covers every element; role agreement: signer, coordinator and share verifier derive "
                    "rho-list, R, c and lambda from the same objects; kernel agreement: the signer's share formula "
                    "satisfies the share-check equation identically, single verification is the cofactored Schnorr check "
-                   "and the single-signer signature satisfies it.")
+                   "and the single-signer signature satisfies it. The Lagrange kernel is decided per path class of one iteration (x_j == x_i leaves both accumulators unchanged; otherwise (x - x_j)/(x_i - x_j), the x = None case being that at x = 0), whatever the accumulators are called and whether they are two scalars or one pair.")
     ctx.undecided = ("the Lagrange identity Sigma lambda_i*s_i = s, field/group arithmetic, hashes, verification by an "
                      "external library.")
     ctx.floor = 30
